@@ -117,11 +117,51 @@ enum Op {
     Caught,
     /// 0 = block, 1 = unblock, 2 = set
     Sigmask(u8, Vec<usize>),
+    /// soft RLIMIT_NOFILE
+    Setrlimit(u32),
+    /// setpgid(0, 0)
+    Setpgid0,
+    Kill(Target, usize),
     Fork,
     Exit,
 }
 
-const SIGS: [&str; 5] = ["USR1", "USR2", "TERM", "INT", "HUP"];
+const SIGS: [&str; 6] = ["USR1", "USR2", "TERM", "INT", "HUP", "TSTP"];
+
+/// Who gets the signal (never kill(-1): the check runs as root).
+#[derive(Clone, Copy, Debug, PartialEq, Eq)]
+enum Target {
+    /// kill(getpid())
+    Own,
+    /// kill(getppid()) — only in a forked child
+    Parent,
+    /// kill(0)
+    Group0,
+    /// kill(-getpgrp())
+    NegPgid,
+    /// kill(-getpid())
+    NegPid,
+}
+
+impl Target {
+    fn coq(self) -> &'static str {
+        match self {
+            Target::Own => "TSelf",
+            Target::Parent => "TParent",
+            Target::Group0 => "TGroup0",
+            Target::NegPgid => "TNegPgid",
+            Target::NegPid => "TNegPid",
+        }
+    }
+}
+
+/// How a forked child ended.
+#[derive(Clone, Copy, Debug, PartialEq, Eq)]
+enum CStat {
+    Exited,
+    /// index into SIGS (usize::MAX = another signal)
+    Signaled(usize),
+}
 
 #[derive(Clone, Copy, Debug, PartialEq, Eq)]
 enum Disp {
@@ -181,13 +221,16 @@ enum Res {
     Err(&'static str),
     Disp(Disp),
     Sigs(Vec<usize>),
+    /// not executed: the process had been killed
+    Skip,
+    Child(CStat),
     Hang,
     Panic,
 }
 
-const ERRNOS: [&str; 12] = [
+const ERRNOS: [&str; 13] = [
     "ENOENT", "EEXIST", "ENOTDIR", "EISDIR", "EBADF", "EINVAL", "ESPIPE", "EPIPE", "EMFILE",
-    "EACCES", "ELOOP", "EOTHER",
+    "EACCES", "ELOOP", "ESRCH", "EOTHER",
 ];
 
 fn errno_name(e: Errno) -> &'static str {
@@ -203,6 +246,7 @@ fn errno_name(e: Errno) -> &'static str {
         Errno::EMFILE => "EMFILE",
         Errno::EACCES => "EACCES",
         Errno::ELOOP => "ELOOP",
+        Errno::ESRCH => "ESRCH",
         _ => "EOTHER",
     }
 }
@@ -351,6 +395,9 @@ impl Op {
             Op::Raise(s) => format!("(ORaise {})", coq::n(*s as u64)),
             Op::Caught => "OCaught".into(),
             Op::Sigmask(h, l) => format!("(OSigmask {} {})", coq::n(*h as u64), sig_list_coq(l)),
+            Op::Setrlimit(n) => format!("(OSetrlimit {})", coq::n(*n as u64)),
+            Op::Setpgid0 => "OSetpgid0".into(),
+            Op::Kill(tg, s) => format!("(OKill {} {})", tg.coq(), coq::n(*s as u64)),
             Op::Fork => "OFork".into(),
             Op::Exit => "OExit".into(),
         }
@@ -383,6 +430,9 @@ impl Op {
                 ["block", "unblock", "set"][*h as usize],
                 l.iter().map(|s| SIGS[*s]).collect::<Vec<_>>()
             ),
+            Op::Setrlimit(n) => format!("setrlimit(NOFILE,{n})"),
+            Op::Setpgid0 => "setpgid(0,0)".into(),
+            Op::Kill(tg, s) => format!("kill({:?},{})", tg, SIGS[*s]),
             Op::Fork => "fork{".into(),
             Op::Exit => "}exit".into(),
         }
@@ -405,6 +455,8 @@ impl Op {
             Op::Readdir(..) => "readdir",
             Op::Getfd(..) | Op::Setfd(..) | Op::Access(..) => "fcntl",
             Op::Sigaction(..) | Op::GetSigaction(..) | Op::Raise(..) | Op::Caught | Op::Sigmask(..) => "signal",
+            Op::Setrlimit(..) => "setrlimit",
+            Op::Setpgid0 | Op::Kill(..) => "kill",
             Op::Fork | Op::Exit => "fork",
         }
     }
@@ -440,6 +492,9 @@ impl Res {
             Res::Err(e) => format!("(RErr {})", e),
             Res::Disp(d) => format!("(RDisp {})", d.coq()),
             Res::Sigs(l) => format!("(RSigs {})", sig_list_coq(l)),
+            Res::Skip => "RSkip".into(),
+            Res::Child(CStat::Exited) => "(RChild CExited)".into(),
+            Res::Child(CStat::Signaled(s)) => format!("(RChild (CSignaled {}))", coq::n(*s as u64)),
             Res::Hang => "RHang".into(),
             Res::Panic => "RPanic".into(),
         }
@@ -472,6 +527,9 @@ impl Res {
             Res::Err(e) => format!("err {e}"),
             Res::Disp(d) => format!("disp {}", d.coq()),
             Res::Sigs(l) => format!("sigs {}", l.iter().map(|s| s.to_string()).collect::<Vec<_>>().join(",")),
+            Res::Skip => "skip".into(),
+            Res::Child(CStat::Exited) => "child exited".into(),
+            Res::Child(CStat::Signaled(s)) => format!("child signaled {s}"),
             Res::Hang => "hang".into(),
             Res::Panic => "panic".into(),
         }
@@ -513,6 +571,8 @@ impl Res {
             "sigs" => Res::Sigs(
                 a.first().copied().unwrap_or("").split(',').filter(|x| !x.is_empty()).map(|x| x.parse().unwrap()).collect(),
             ),
+            "skip" => Res::Skip,
+            "child" => Res::Child(if a[0] == "exited" { CStat::Exited } else { CStat::Signaled(a[1].parse().unwrap()) }),
             "panic" => Res::Panic,
             _ => Res::Hang,
         }
@@ -600,13 +660,26 @@ impl SysObs {
 trait SysOps:
     Open + Close + Dup + Read + Write + Seek + Fstat + Umask + Chdir + GetCwd + Pipe + Fcntl
     + Fork + Wait + Exit + yash_env::system::Sigaction + yash_env::system::Sigmask
-    + yash_env::system::CaughtSignals + yash_env::system::SendSignal + Sized + 'static
+    + yash_env::system::CaughtSignals + yash_env::system::SendSignal
+    + yash_env::system::resource::GetRlimit + yash_env::system::resource::SetRlimit
+    + yash_env::system::GetPid + yash_env::system::SetPgid + Sized + 'static
 {
     const REAL: bool;
     /// the numbers of SIGS on this system
     fn sig(i: usize) -> yash_env::signal::Number {
-        [Self::SIGUSR1, Self::SIGUSR2, Self::SIGTERM, Self::SIGINT, Self::SIGHUP][i]
+        [Self::SIGUSR1, Self::SIGUSR2, Self::SIGTERM, Self::SIGINT, Self::SIGHUP, Self::SIGTSTP][i]
     }
+}
+
+/// Sets the soft RLIMIT_NOFILE (None = as high as the hard limit allows).
+fn set_nofile<S: SysOps>(sys: &S, n: Option<u32>) -> Result<(), Errno> {
+    use yash_env::system::resource::{INFINITY, LimitPair, Resource};
+    let cur = sys.getrlimit(Resource::NOFILE)?;
+    let soft = match n {
+        Some(n) => n as _,
+        None => if cur.hard == INFINITY { 4096 } else { cur.hard },
+    };
+    sys.setrlimit(Resource::NOFILE, LimitPair { soft, hard: cur.hard })
 }
 impl SysOps for VirtualSystem {
     const REAL: bool = false;
@@ -716,7 +789,7 @@ fn e(r: Errno) -> Res {
     Res::Err(errno_name(r))
 }
 
-async fn exec_op<S: SysOps>(sys: &S, op: &Op, root: &str) -> Res {
+async fn exec_op<S: SysOps>(sys: &S, op: &Op, root: &str, depth: usize) -> Res {
     match op {
         Op::Open(p, a, f, m) => {
             let flags = f.set(OpenFlag::Create & OpenFlag::Append);
@@ -855,6 +928,34 @@ async fn exec_op<S: SysOps>(sys: &S, op: &Op, root: &str) -> Res {
                 Err(x) => e(x),
             }
         }
+        Op::Setrlimit(n) => match set_nofile(sys, Some(*n)) {
+            Ok(()) => Res::Unit,
+            Err(x) => e(x),
+        },
+        Op::Setpgid0 => match sys.setpgid(yash_env::job::Pid(0), yash_env::job::Pid(0)) {
+            Ok(()) => Res::Unit,
+            Err(x) => e(x),
+        },
+        Op::Kill(tg, s) => {
+            use yash_env::job::Pid;
+            let target = match tg {
+                Target::Own => sys.getpid(),
+                Target::Parent => {
+                    // the parent of the first process of a sequence is the harness itself
+                    assert!(depth > 0, "generator: kill(getppid()) outside a forked child");
+                    sys.getppid()
+                }
+                Target::Group0 => Pid(0),
+                Target::NegPgid => Pid(-sys.getpgrp().0),
+                Target::NegPid => Pid(-sys.getpid().0),
+            };
+            // never "every process" (the check may run as root)
+            assert!(target != Pid(-1) && target.0 != 1, "generator: kill({})", target.0);
+            match sys.kill(target, Some(S::sig(*s))).await {
+                Ok(()) => Res::Unit,
+                Err(x) => e(x),
+            }
+        }
         Op::Fork | Op::Exit => unreachable!(),
     }
 }
@@ -879,27 +980,30 @@ fn matching_exit(ops: &[Op], i: usize) -> usize {
 
 /// Runs the operations in order; `Fork ... Exit` runs the enclosed operations
 /// in a child process while the parent waits for it (subshell schedule).  The
-/// child reports the results of `Fork` and `Exit` itself.
+/// child reports the result of `Fork` itself; the parent reports at `Exit` how
+/// the child ended.  A child that stops is continued by its parent.  A child
+/// that is killed leaves the rest of its operations without results: see
+/// [`align`].
 fn run_ops<'a, S: SysOps, K: Sink>(
     sys: &'a S,
     ops: &'a [Op],
     root: &'a str,
     sink: &'a K,
+    depth: usize,
 ) -> Pin<Box<dyn Future<Output = ()> + 'a>> {
     Box::pin(async move {
+        use yash_env::job::{ProcessResult, ProcessState};
         let mut i = 0;
         while i < ops.len() {
             match &ops[i] {
                 Op::Fork => {
                     let j = matching_exit(ops, i);
                     let child_ops: Vec<Op> = ops[i + 1..j].to_vec();
-                    let n_child = child_ops.len();
                     let root2 = root.to_string();
                     let sink2 = sink.clone();
                     let (r, _) = sys.run_in_child_process((), async move |csys: S, _| {
                         sink2.emit(Res::Unit);
-                        run_ops(&csys, &child_ops, &root2, &sink2).await;
-                        sink2.emit(Res::Unit);
+                        run_ops(&csys, &child_ops, &root2, &sink2, depth + 1).await;
                         csys.exit(ExitStatus(0)).await;
                     });
                     match r {
@@ -920,27 +1024,86 @@ fn run_ops<'a, S: SysOps, K: Sink>(
                                             YieldNow(false).await;
                                         }
                                     }
-                                    _ => break,
+                                    Ok(Some((_, ProcessState::Halted(ProcessResult::Exited(_))))) => {
+                                        sink.emit(Res::Child(CStat::Exited));
+                                        break;
+                                    }
+                                    Ok(Some((_, ProcessState::Halted(ProcessResult::Signaled { signal, .. })))) => {
+                                        let idx = (0..SIGS.len()).find(|k| S::sig(*k) == signal).unwrap_or(usize::MAX);
+                                        sink.emit(Res::Child(CStat::Signaled(idx)));
+                                        break;
+                                    }
+                                    Ok(Some((_, ProcessState::Halted(ProcessResult::Stopped(_))))) => {
+                                        // continue it
+                                        let _ = sys.kill(pid, Some(S::SIGCONT)).await;
+                                    }
+                                    Ok(Some((_, ProcessState::Running))) => {}
+                                    Err(x) => {
+                                        sink.emit(e(x));
+                                        break;
+                                    }
                                 }
                             }
                         }
                         Err(x) => {
+                            // no child: its operations have no results
                             sink.emit(e(x));
-                            for _ in 0..=n_child {
-                                sink.emit(Res::Hang);
-                            }
+                            sink.emit(Res::Child(CStat::Signaled(usize::MAX)));
                         }
                     }
                     i = j + 1;
                 }
                 Op::Exit => panic!("generator: exit without fork"),
                 op => {
-                    sink.emit(exec_op(sys, op, root).await);
+                    sink.emit(exec_op(sys, op, root, depth).await);
                     i += 1;
                 }
             }
         }
     })
+}
+
+/// One result per operation: the raw stream has no results for the operations
+/// a killed child did not execute; they get `Skip`, and the `Child` report of
+/// the parent goes to the matching `Exit`.
+fn align(ops: &[Op], raw: &[Res]) -> Vec<Res> {
+    let mut out = Vec::with_capacity(ops.len());
+    let mut j = 0;
+    let mut i = 0;
+    while i < ops.len() {
+        let next = raw.get(j);
+        match (&ops[i], next) {
+            (Op::Exit, Some(Res::Child(_))) => {
+                out.push(next.unwrap().clone());
+                j += 1;
+                i += 1;
+            }
+            (_, Some(Res::Child(_))) => {
+                // the child died here: skip to its exit (nested forks included)
+                let mut depth = 0;
+                while i < ops.len() {
+                    match &ops[i] {
+                        Op::Fork => depth += 1,
+                        Op::Exit if depth == 0 => break,
+                        Op::Exit => depth -= 1,
+                        _ => {}
+                    }
+                    out.push(Res::Skip);
+                    i += 1;
+                }
+            }
+            (_, Some(r)) => {
+                out.push(r.clone());
+                j += 1;
+                i += 1;
+            }
+            (_, None) => {
+                out.push(Res::Hang);
+                i += 1;
+            }
+        }
+    }
+    out
 }
 
 // ---------------------------------------------------------------------------
@@ -1085,6 +1248,10 @@ fn run_sys_virtual(case: &SysCase, root: &str) -> SysObs {
                 p.chdir(yash_env::path::PathBuf::from(root));
             }
             system.umask(Mode::from_bits_retain(case.umask as _));
+            {
+                use yash_env::system::SetPgid as _;
+                let _ = system.setpgid(yash_env::job::Pid(0), yash_env::job::Pid(0));
+            }
             let done = Rc::new(Cell::new(false));
             {
                 let done = Rc::clone(&done);
@@ -1092,7 +1259,7 @@ fn run_sys_virtual(case: &SysCase, root: &str) -> SysObs {
                 let root = root.to_string();
                 let sys = system.clone();
                 let task = async move {
-                    run_ops(&sys, &ops, &root, &sink).await;
+                    run_ops(&sys, &ops, &root, &sink, 0).await;
                     done.set(true);
                 };
                 // SAFETY: single-threaded, as in yash_env::test_helper::in_virtual_system
@@ -1109,14 +1276,12 @@ fn run_sys_virtual(case: &SysCase, root: &str) -> SysObs {
         }))
         .is_err()
     };
-    let mut res = sink.0.borrow().clone();
-    if panicked && res.len() < case.ops.len() {
-        res.push(Res::Panic);
+    let mut raw = sink.0.borrow().clone();
+    if panicked {
+        raw.push(Res::Panic);
     }
-    // a call that never returned: the rest of the sequence has no result
-    while res.len() < case.ops.len() {
-        res.push(Res::Hang);
-    }
+    // (a call that never returned: the rest of the sequence gets `Hang`)
+    let res = align(&case.ops, &raw);
     let snap = std::panic::catch_unwind(std::panic::AssertUnwindSafe(|| {
         let read = |p: &str| -> Vec<u8> {
             match state.borrow().file_system.get(p) {
@@ -1140,6 +1305,7 @@ fn run_sys_real(case: &SysCase, dir: &str) {
     let sys = unsafe { RealSystem::new() };
     let root = format!("{dir}/root");
     let stdd = format!("{dir}/std");
+    let _ = set_nofile(&sys, None);
     let _ = std::fs::remove_dir_all(dir);
     std::fs::create_dir_all(&stdd).unwrap();
     populate_real(&root, &case.tree);
@@ -1170,10 +1336,11 @@ fn run_sys_real(case: &SysCase, dir: &str) {
     sys.chdir(&cstr(&root)).unwrap();
     sys.umask(Mode::from_bits_retain(case.umask as _));
     let sink = FdSink;
-    let fut = run_ops(&sys, &case.ops, &root, &sink);
+    let fut = run_ops(&sys, &case.ops, &root, &sink, 0);
     if now(fut).is_none() {
         sink_line("R hang");
     }
+    let _ = set_nofile(&sys, None);
     sys.chdir(&cstr("/")).unwrap();
     sys.umask(Mode::from_bits_retain(0o022));
     sink_line(&format!("T {}", tree_enc(&snapshot_real(&root))));
@@ -1212,51 +1379,62 @@ struct Excl {
     killed_process_keeps_running: bool,
     /// sigaction(sig, Ignore) does not discard a pending instance of sig
     ignore_keeps_pending: bool,
+    /// dup(fd, min) with min >= RLIMIT_NOFILE fails with EMFILE, not EINVAL
+    dup_min_above_limit: bool,
+    /// an open that fails with EMFILE has created / truncated the file
+    emfile_open_side_effects: bool,
 }
 
-impl Excl {
-    /// every class kept out (the plain generators)
-    fn all() -> Excl {
-        Excl {
-            opendir_fd_leak: true,
-            creat_dotdot: true,
-            getcwd_unnormalized: true,
-            dot_after_file: true,
-            open_dir_for_writing: true,
-            dup2_same_fd: true,
-            creat_missing_parent: true,
-            killed_process_keeps_running: true,
-            ignore_keeps_pending: true,
-        }
-    }
+/// New findings that are not registered in /verif/known_findings.json yet are
+/// listed in props/C19.json "unregistered_findings" and kept out of the
+/// generators until they are (remove the entry then; the cases are tagged with
+/// the class name).
+fn unregistered(name: &str) -> bool {
+    use std::sync::OnceLock;
+    static LIST: OnceLock<String> = OnceLock::new();
+    let list = LIST.get_or_init(|| {
+        let path = std::env::var("YV_C19_PROPS").unwrap_or_else(|_| "/verif/props/C19.json".to_string());
+        let text = std::fs::read_to_string(&path).unwrap_or_default();
+        text.split("\"unregistered_findings\"")
+            .nth(1)
+            .and_then(|s| s.split('[').nth(1))
+            .and_then(|s| s.split(']').next())
+            .unwrap_or("")
+            .to_string()
+    });
+    list.contains(&format!("\"{name}\""))
 }
 
-/// Which classes a generated case may touch.  Three cases out of four touch
-/// none (so that an unknown deviation is not attributed to a known class);
-/// the fourth may touch one class for sure and every other class with
-/// probability 1/4.  A case is tagged with a class only if it really contains
-/// an input of that class.
+/// Which classes a generated case may touch.  Eight of the nine findings
+/// have been repaired in /repo (the tags stay: a failing case of a repaired
+/// class is a violation again); their inputs are generated in every case.
+/// The class of the finding that is still open (creat-missing-parent, F24)
+/// is generated in one case out of four only, so that an unknown deviation is
+/// rarely attributed to it.
 fn excl_for(seed: u64, idx: usize, salt: u64) -> Excl {
     let mut r = Rng::new(seed ^ salt).fork(idx as u64);
-    if !r.chance(1, 4) {
-        return Excl::all();
-    }
-    let sure = r.below(9);
-    let mut keep = [true; 9];
-    for (i, k) in keep.iter_mut().enumerate() {
-        *k = !(i == sure || r.chance(1, 4));
-    }
     Excl {
-        opendir_fd_leak: keep[0],
-        creat_dotdot: keep[1],
-        getcwd_unnormalized: keep[2],
-        dot_after_file: keep[3],
-        open_dir_for_writing: keep[4],
-        dup2_same_fd: keep[5],
-        creat_missing_parent: keep[6],
-        killed_process_keeps_running: keep[7],
-        ignore_keeps_pending: keep[8],
+        opendir_fd_leak: false,
+        creat_dotdot: false,
+        getcwd_unnormalized: false,
+        dot_after_file: false,
+        open_dir_for_writing: false,
+        dup2_same_fd: false,
+        creat_missing_parent: !r.chance(1, 4),
+        killed_process_keeps_running: false,
+        ignore_keeps_pending: false,
+        dup_min_above_limit: unregistered("dup-min-above-limit"),
+        emfile_open_side_effects: unregistered("emfile-open-side-effects"),
     }
+}
+
+#[derive(Clone, Copy, Debug, PartialEq, Eq)]
+enum SigEffect {
+    Nothing,
+    Fatal,
+    Stop,
+    /// POSIX leaves it open (blocked and ignored)
+    Unspecified,
 }
 
 #[derive(Clone, Copy, Debug, PartialEq, Eq)]
@@ -1271,12 +1449,17 @@ enum OfdKind {
 struct ProcT {
     fds: BTreeMap<i32, usize>,
     cwd: Vec<String>,
-    disp: [Disp; 5],
+    disp: [Disp; 6],
     mask: BTreeSet<usize>,
     pend: BTreeSet<usize>,
     caught: BTreeSet<usize>,
     /// descriptors with close-on-exec set
     cx: BTreeSet<i32>,
+    /// soft RLIMIT_NOFILE
+    limit: i32,
+    /// identity of the process group, and whether this process leads it
+    pg: usize,
+    leader: bool,
 }
 
 /// What the generator believes about the state (only used to produce mostly
@@ -1284,6 +1467,9 @@ struct ProcT {
 struct Tracker {
     /// classes of known deviations the sequence touches (found while generating)
     hit: Vec<&'static str>,
+    /// the running (forked) process has been killed by a signal
+    dead: bool,
+    next_pg: usize,
     dirs: BTreeSet<Vec<String>>,
     files: BTreeSet<Vec<String>>,
     ofds: Vec<(OfdKind, bool, bool)>,
@@ -1314,14 +1500,17 @@ impl Tracker {
             fds.insert(i, ofds.len());
             ofds.push((OfdKind::Reg, true, true));
         }
-        Tracker { hit: vec![], dirs, files, ofds, pipes: vec![], procs: vec![ProcT {
+        Tracker { hit: vec![], dead: false, next_pg: 1, dirs, files, ofds, pipes: vec![], procs: vec![ProcT {
                 fds,
                 cwd: vec![],
-                disp: [Disp::Default; 5],
+                disp: [Disp::Default; 6],
                 mask: BTreeSet::new(),
                 pend: BTreeSet::new(),
                 caught: BTreeSet::new(),
                 cx: BTreeSet::new(),
+                limit: 1024,
+                pg: 0,
+                leader: true,
             }],
         }
     }
@@ -1338,12 +1527,44 @@ impl Tracker {
         }
         fd
     }
-    fn install(&mut self, kind: OfdKind, rd: bool, wr: bool) -> i32 {
+    /// a free descriptor >= min below the limit
+    fn can_alloc(&self, min: i32) -> bool {
+        self.lowest_free(min) < self.cur().limit
+    }
+    /// None = EMFILE
+    fn install(&mut self, kind: OfdKind, rd: bool, wr: bool) -> Option<i32> {
+        if !self.can_alloc(0) {
+            return None;
+        }
         let fd = self.lowest_free(0);
         let id = self.ofds.len();
         self.ofds.push((kind, rd, wr));
         self.cur_mut().fds.insert(fd, id);
-        fd
+        Some(fd)
+    }
+    /// What generating `sig` for the process at `idx` of the stack does:
+    /// Ok(()) = the tracker has been updated; Err(fatal) = not allowed in the
+    /// domain, or (for the running process only) `fatal`/stop is reported back.
+    fn generate(&mut self, idx: usize, sig: usize, dry: bool) -> SigEffect {
+        let p = &mut self.procs[idx];
+        let blocked = p.mask.contains(&sig);
+        match (p.disp[sig], blocked) {
+            (Disp::Ignore, true) => SigEffect::Unspecified,
+            (Disp::Ignore, false) => SigEffect::Nothing,
+            (Disp::Catch, false) => {
+                if !dry {
+                    p.caught.insert(sig);
+                }
+                SigEffect::Nothing
+            }
+            (Disp::Catch, true) | (Disp::Default, true) => {
+                if !dry {
+                    p.pend.insert(sig);
+                }
+                SigEffect::Nothing
+            }
+            (Disp::Default, false) => if SIGS[sig] == "TSTP" { SigEffect::Stop } else { SigEffect::Fatal },
+        }
     }
     fn live(&self, want: OfdKind) -> bool {
         self.procs.iter().any(|p| p.fds.values().any(|id| self.ofds[*id].0 == want))
@@ -1527,15 +1748,122 @@ fn pick_fd(r: &mut Rng, t: &Tracker) -> i32 {
     }
 }
 
+/// setpgid / kill (to the caller, its parent, its process group), only where
+/// the result is inside the domain: no waiting ancestor and not the first
+/// process of the sequence may be killed or stopped, and nothing is sent to a
+/// process that blocks and ignores the signal.  Returns false if nothing was
+/// generated.
+fn gen_kill(r: &mut Rng, t: &mut Tracker, ops: &mut Vec<Op>, depth: usize) -> bool {
+    let cur = t.procs.len() - 1;
+    match r.below(10) {
+        0 => {
+            let id = t.next_pg;
+            t.next_pg += 1;
+            let p = t.cur_mut();
+            p.pg = id;
+            p.leader = true;
+            ops.push(Op::Setpgid0);
+            return true;
+        }
+        1 | 2 if depth == 0 => {
+            // prepare a group scenario: this process ignores or catches a signal
+            let sig = r.below(6);
+            let d = *r.pick(&[Disp::Ignore, Disp::Ignore, Disp::Catch]);
+            if d == Disp::Ignore && t.cur().pend.contains(&sig) {
+                return false;
+            }
+            t.cur_mut().disp[sig] = d;
+            ops.push(Op::Sigaction(sig, d));
+            return true;
+        }
+        3 if depth > 0 => {
+            // the child takes the default action again
+            let sig = r.below(6);
+            t.cur_mut().disp[sig] = Disp::Default;
+            ops.push(Op::Sigaction(sig, Disp::Default));
+            return true;
+        }
+        _ => {}
+    }
+    let tg = *r.pick(&[Target::Own, Target::Parent, Target::Group0, Target::Group0, Target::NegPgid, Target::NegPgid, Target::NegPid]);
+    let sig = r.below(6);
+    // the processes that get the signal, the running one last
+    let targets: Vec<usize> = match tg {
+        Target::Own => vec![cur],
+        Target::Parent => {
+            if depth == 0 {
+                return false;
+            }
+            vec![cur - 1]
+        }
+        Target::Group0 | Target::NegPgid => (0..=cur).filter(|i| t.procs[*i].pg == t.procs[cur].pg).collect(),
+        Target::NegPid => {
+            if !t.procs[cur].leader {
+                // ESRCH, no effect
+                ops.push(Op::Kill(tg, sig));
+                return true;
+            }
+            (0..=cur).filter(|i| t.procs[*i].pg == t.procs[cur].pg).collect()
+        }
+    };
+    // dry run: is every effect inside the domain?
+    for &i in &targets {
+        match t.generate(i, sig, true) {
+            SigEffect::Nothing => {}
+            SigEffect::Unspecified => return false,
+            SigEffect::Fatal | SigEffect::Stop => {
+                if i != cur || depth == 0 {
+                    return false;
+                }
+            }
+        }
+    }
+    for &i in &targets {
+        if t.generate(i, sig, false) == SigEffect::Fatal {
+            t.dead = true;
+        }
+    }
+    ops.push(Op::Kill(tg, sig));
+    true
+}
+
 /// One more operation (appended to `ops`); the tracker is updated with what
 /// the operation is expected to do.
 fn gen_op(r: &mut Rng, t: &mut Tracker, x: &Excl, ops: &mut Vec<Op>, depth: usize, budget: &mut usize) {
+    gen_op_w(r, t, x, ops, depth, budget, None)
+}
+
+/// `force`: the kind of operation to try first (an index into the weights below).
+fn gen_op_w(r: &mut Rng, t: &mut Tracker, x: &Excl, ops: &mut Vec<Op>, depth: usize, budget: &mut usize, force: Option<usize>) {
+    let mut force = force;
     loop {
-        let w = r.below(122);
+        let w = force.take().unwrap_or_else(|| r.below(136));
         match w {
+            122..=126 => {
+                // soft RLIMIT_NOFILE: tight around the descriptors in use, or relaxed again
+                let used = t.cur().fds.keys().copied().max().map_or(0, |m| m + 1);
+                let n = match r.below(8) {
+                    0 => 64,
+                    1 => 3 + r.below(8) as i32,
+                    2 => used,
+                    3 | 4 => used + 1,
+                    5 => used + 2,
+                    _ => t.lowest_free(0) + 1 + r.below(2) as i32,
+                };
+                let n = n.clamp(1, 64);
+                t.cur_mut().limit = n;
+                ops.push(Op::Setrlimit(n as u32));
+                return;
+            }
+            127..=135 => {
+                if (0..4).any(|_| gen_kill(r, t, ops, depth)) {
+                    return;
+                }
+                continue;
+            }
             108..=121 => {
                 // signals (never one whose default action would be taken)
-                let sig = r.below(5);
+                let sig = r.below(6);
                 match r.below(7) {
                     0 | 1 => {
                         let mut d = *r.pick(&[Disp::Catch, Disp::Catch, Disp::Ignore, Disp::Default]);
@@ -1564,9 +1892,11 @@ fn gen_op(r: &mut Rng, t: &mut Tracker, x: &Excl, ops: &mut Vec<Op>, depth: usiz
                     3 | 4 => {
                         let p = t.cur_mut();
                         if p.mask.contains(&sig) {
-                            if p.disp[sig] != Disp::Ignore {
-                                p.pend.insert(sig);
+                            if p.disp[sig] == Disp::Ignore {
+                                // POSIX leaves open whether it stays pending
+                                continue;
                             }
+                            p.pend.insert(sig);
                         } else {
                             match p.disp[sig] {
                                 Disp::Default => continue,
@@ -1585,7 +1915,7 @@ fn gen_op(r: &mut Rng, t: &mut Tracker, x: &Excl, ops: &mut Vec<Op>, depth: usiz
                     _ => {
                         let how = r.below(3) as u8;
                         let n = r.below(3);
-                        let mut sigs: Vec<usize> = (0..n).map(|_| r.below(5)).collect();
+                        let mut sigs: Vec<usize> = (0..n).map(|_| r.below(6)).collect();
                         sigs.dedup();
                         let p = t.cur_mut();
                         let mut new = p.mask.clone();
@@ -1665,7 +1995,9 @@ fn gen_op(r: &mut Rng, t: &mut Tracker, x: &Excl, ops: &mut Vec<Op>, depth: usiz
                 let parent_ok = !target.is_empty() && t.dirs.contains(&target[..target.len() - 1].to_vec());
                 let (rd, wr) = (acc != Acc::Wr, acc != Acc::Rd);
                 // classes of known deviations this call is in
-                if class == PathClass::DotAfterFile {
+                if !t.can_alloc(0) {
+                    // (fails with EMFILE whatever the path)
+                } else if class == PathClass::DotAfterFile {
                     t.hit("dot-after-file");
                 } else if is_dir && wr {
                     t.hit("open-dir-for-writing");
@@ -1677,15 +2009,32 @@ fn gen_op(r: &mut Rng, t: &mut Tracker, x: &Excl, ops: &mut Vec<Op>, depth: usiz
                     }
                 }
                 let mut newfd = None;
-                if class == PathClass::DotAfterFile {
+                let would_succeed = class != PathClass::DotAfterFile
+                    && ((is_file && !(fl.creat && fl.excl) && !fl.dir)
+                        || (is_dir && !wr && !fl.creat)
+                        || (!is_file && !is_dir && parent_ok && fl.creat && !p.ends_with('/')));
+                if !t.can_alloc(0) {
+                    // EMFILE, without any effect; which error wins when the open
+                    // fails anyway is not specified: not generated
+                    if !would_succeed {
+                        continue;
+                    }
+                    if (!is_file && fl.creat) || (is_file && fl.trunc) {
+                        // the simulator creates / truncates before it fails
+                        if x.emfile_open_side_effects {
+                            continue;
+                        }
+                        t.hit("emfile-open-side-effects");
+                    }
+                } else if class == PathClass::DotAfterFile {
                     // fails on a POSIX system
                 } else if is_file && !(fl.creat && fl.excl) && !fl.dir {
-                    newfd = Some(t.install(OfdKind::Reg, rd, wr));
+                    newfd = t.install(OfdKind::Reg, rd, wr);
                 } else if is_dir && !wr && !fl.creat {
-                    newfd = Some(t.install(OfdKind::Dir, true, false));
+                    newfd = t.install(OfdKind::Dir, true, false);
                 } else if !is_file && !is_dir && parent_ok && fl.creat && !p.ends_with('/') {
                     t.files.insert(target);
-                    newfd = Some(t.install(OfdKind::Reg, rd, wr));
+                    newfd = t.install(OfdKind::Reg, rd, wr);
                 }
                 if let Some(fd) = newfd {
                     if fl.cloexec {
@@ -1708,7 +2057,14 @@ fn gen_op(r: &mut Rng, t: &mut Tracker, x: &Excl, ops: &mut Vec<Op>, depth: usiz
                 let fd = pick_fd(r, t);
                 let min = *r.pick(&[0, 0, 3, 5, 10, 10, 12]);
                 let cx = r.chance(1, 3);
-                if let Some(id) = t.cur().fds.get(&fd).copied() {
+                if t.cur().fds.contains_key(&fd) && min >= t.cur().limit {
+                    // POSIX: EINVAL; the simulator: EMFILE
+                    if x.dup_min_above_limit {
+                        continue;
+                    }
+                    t.hit("dup-min-above-limit");
+                }
+                if let Some(id) = t.cur().fds.get(&fd).copied().filter(|_| min < t.cur().limit && t.can_alloc(min)) {
                     let n = t.lowest_free(min);
                     t.cur_mut().fds.insert(n, id);
                     if cx {
@@ -1740,7 +2096,7 @@ fn gen_op(r: &mut Rng, t: &mut Tracker, x: &Excl, ops: &mut Vec<Op>, depth: usiz
                     }
                     return;
                 }
-                if let Some(id) = t.cur().fds.get(&fd).copied() {
+                if let Some(id) = t.cur().fds.get(&fd).copied().filter(|_| to < t.cur().limit) {
                     t.cur_mut().fds.insert(to, id);
                     t.cur_mut().cx.remove(&to);
                 }
@@ -1829,8 +2185,12 @@ fn gen_op(r: &mut Rng, t: &mut Tracker, x: &Excl, ops: &mut Vec<Op>, depth: usiz
             97..=99 => {
                 let p = t.pipes.len();
                 t.pipes.push(0);
-                t.install(OfdKind::PipeR(p), true, false);
-                t.install(OfdKind::PipeW(p), false, true);
+                if let Some(rfd) = t.install(OfdKind::PipeR(p), true, false) {
+                    if t.install(OfdKind::PipeW(p), false, true).is_none() {
+                        // EMFILE: the first descriptor is released again
+                        t.cur_mut().fds.remove(&rfd);
+                    }
+                }
                 ops.push(Op::Pipe);
                 return;
             }
@@ -1840,7 +2200,11 @@ fn gen_op(r: &mut Rng, t: &mut Tracker, x: &Excl, ops: &mut Vec<Op>, depth: usiz
                 }
                 let class = *r.pick(&[PathClass::Dir, PathClass::Dir, PathClass::File, PathClass::Missing]);
                 let (p, target) = pick_path(r, t, class, Spell::Fancy);
-                if t.dirs.contains(&target) {
+                if !t.can_alloc(0) && !t.dirs.contains(&target) {
+                    // which error wins is not specified
+                    continue;
+                }
+                if t.dirs.contains(&target) && t.can_alloc(0) {
                     // the simulator leaves a descriptor open
                     t.hit("opendir-fd-leak");
                 }
@@ -1879,6 +2243,7 @@ fn gen_op(r: &mut Rng, t: &mut Tracker, x: &Excl, ops: &mut Vec<Op>, depth: usiz
                 ops.push(Op::Fork);
                 let mut child = t.cur().clone();
                 child.pend.clear();
+                child.leader = false;
                 t.procs.push(child);
                 let n = 1 + r.below(6.min(*budget - 1));
                 for _ in 0..n {
@@ -1887,7 +2252,15 @@ fn gen_op(r: &mut Rng, t: &mut Tracker, x: &Excl, ops: &mut Vec<Op>, depth: usiz
                     }
                     *budget -= 1;
                     gen_op(r, t, x, ops, depth + 1, budget);
+                    if t.dead {
+                        // nothing more of this child is executed
+                        if r.chance(1, 2) {
+                            ops.push(Op::Getcwd);
+                        }
+                        break;
+                    }
                 }
+                t.dead = false;
                 t.procs.pop();
                 ops.push(Op::Exit);
                 return;
@@ -1916,7 +2289,52 @@ fn default_tree(r: &mut Rng) -> InitTree {
     t
 }
 
+/// EMFILE sweep: some preliminary operations, then the descriptor limit set to
+/// the lowest free number plus 0, 1 or 2, one allocating operation (open, dup,
+/// dup2, pipe, directory listing, fork), the limit relaxed again and probes
+/// that show which numbers are really free afterwards.
+fn gen_sweep_case(seed: u64, idx: usize) -> SysCase {
+    let x = excl_for(seed, idx, 0x5E7);
+    let mut r = Rng::new(seed ^ 0xE3F1).fork(idx as u64);
+    let tree = default_tree(&mut r);
+    let mut t = Tracker::new(&tree);
+    let mut ops = vec![];
+    let mut budget = 40usize;
+    for _ in 0..(1 + r.below(6)) {
+        // (no signals / forks in the prefix: descriptors only)
+        let w = *r.pick(&[0usize, 5, 10, 22, 30, 33, 38, 46, 57, 97, 104]);
+        gen_op_w(&mut r, &mut t, &x, &mut ops, 0, &mut budget, Some(w));
+    }
+    let rounds = 1 + r.below(3);
+    for _ in 0..rounds {
+        let n = (t.lowest_free(0) + r.below(3) as i32).clamp(1, 64);
+        t.cur_mut().limit = n;
+        ops.push(Op::Setrlimit(n as u32));
+        let w = *r.pick(&[97usize, 97, 97, 0, 7, 12, 30, 31, 38, 100, 106, 107]);
+        gen_op_w(&mut r, &mut t, &x, &mut ops, 0, &mut budget, Some(w));
+        if r.chance(1, 2) {
+            let w2 = *r.pick(&[97usize, 30, 0]);
+            gen_op_w(&mut r, &mut t, &x, &mut ops, 0, &mut budget, Some(w2));
+        }
+        t.cur_mut().limit = 64;
+        ops.push(Op::Setrlimit(64));
+        // probes: the lowest free numbers
+        gen_op_w(&mut r, &mut t, &x, &mut ops, 0, &mut budget, Some(97));
+        let fd = pick_fd(&mut r, &t);
+        ops.push(Op::Fstat(fd));
+        gen_op_w(&mut r, &mut t, &x, &mut ops, 0, &mut budget, Some(30));
+    }
+    for _ in 0..r.below(4) {
+        gen_op(&mut r, &mut t, &x, &mut ops, 0, &mut budget);
+    }
+    SysCase { tree, umask: 0o022, ops, tags: t.hit.clone() }
+}
+
 fn gen_sys_case(seed: u64, idx: usize, thorough: bool) -> SysCase {
+    // every sixth case is an EMFILE sweep
+    if idx % 6 == 5 {
+        return gen_sweep_case(seed, idx);
+    }
     let x = excl_for(seed, idx, 0x5E1);
     let mut r = Rng::new(seed ^ 0xC19).fork(idx as u64);
     let tree = default_tree(&mut r);
@@ -2003,6 +2421,10 @@ where
         }
     }
     env.system.umask(Mode::from_bits_retain(0o022));
+    {
+        // the shell leads a process group of its own on both sides (`kill -- -$$`)
+        let _ = env.system.setpgid(yash_env::job::Pid(0), yash_env::job::Pid(0));
+    }
     let ref_env = RefCell::new(env);
     let lexer = match prepare_input(&ref_env, &work.source).await {
         Ok(lexer) => lexer,
@@ -2121,6 +2543,88 @@ fn real_shell_main(script: &str) -> ! {
     runner.run_real(task)
 }
 
+/// A harness failure (infrastructure, not an observation): never reported as
+/// a difference between the two systems.  The driver sees a non-zero exit.
+fn harness_error(msg: &str) -> ! {
+    eprintln!("c19: HARNESS ERROR (not a property violation): {msg}");
+    std::process::exit(4);
+}
+
+struct Captured {
+    stdout: Vec<u8>,
+    stderr: Vec<u8>,
+    /// None = the process did not finish within the time limit (it was killed)
+    status: Option<std::process::ExitStatus>,
+}
+
+/// Runs a child process in a process group of its own and captures its output.
+/// What has been read is never thrown away: the readers append to shared
+/// buffers, and after the child has exited they are given a long time to reach
+/// end-of-file (stragglers that still hold the pipe are killed first).
+fn capture(mut cmd: std::process::Command, timeout: Duration) -> Captured {
+    use std::os::unix::process::CommandExt;
+    use std::process::Stdio;
+    use std::sync::{Arc, Mutex};
+    cmd.stdin(Stdio::null()).stdout(Stdio::piped()).stderr(Stdio::piped()).process_group(0);
+    let mut child = match cmd.spawn() {
+        Ok(c) => c,
+        Err(e) => harness_error(&format!("cannot start a child process: {e}")),
+    };
+    let pgid = child.id();
+    let spawn_reader = |mut src: Box<dyn std::io::Read + Send>| {
+        let buf = Arc::new(Mutex::new(Vec::<u8>::new()));
+        let b2 = Arc::clone(&buf);
+        let th = std::thread::spawn(move || {
+            let mut chunk = [0u8; 4096];
+            loop {
+                match src.read(&mut chunk) {
+                    Ok(0) | Err(_) => break,
+                    Ok(n) => b2.lock().unwrap().extend_from_slice(&chunk[..n]),
+                }
+            }
+        });
+        (buf, th)
+    };
+    let (out_buf, out_th) = spawn_reader(Box::new(child.stdout.take().unwrap()));
+    let (err_buf, err_th) = spawn_reader(Box::new(child.stderr.take().unwrap()));
+    let kill_group = || {
+        let _ = std::process::Command::new("/bin/kill").arg("-9").arg(format!("-{pgid}")).status();
+    };
+    let t0 = Instant::now();
+    let status = loop {
+        match child.try_wait() {
+            Ok(Some(st)) => break Some(st),
+            Ok(None) => {
+                if t0.elapsed() > timeout {
+                    kill_group();
+                    let _ = child.kill();
+                    let _ = child.wait();
+                    break None;
+                }
+                std::thread::sleep(Duration::from_millis(1));
+            }
+            Err(_) => break None,
+        }
+    };
+    // the child has exited: everything it wrote is in the pipes already; give
+    // the readers time to drain them, whatever the load
+    let wait_readers = |limit: Duration| {
+        let t1 = Instant::now();
+        while !(out_th.is_finished() && err_th.is_finished()) && t1.elapsed() < limit {
+            std::thread::sleep(Duration::from_millis(1));
+        }
+        out_th.is_finished() && err_th.is_finished()
+    };
+    if !wait_readers(Duration::from_secs(20)) {
+        // descendants still hold the pipes
+        kill_group();
+        wait_readers(Duration::from_secs(60));
+    }
+    let stdout = out_buf.lock().unwrap().clone();
+    let stderr = err_buf.lock().unwrap().clone();
+    Captured { stdout, stderr, status }
+}
+
 /// Runs the script with this binary as the shell, in a fresh directory.
 fn run_script_real(script: &str, tree: &InitTree, dir: &str) -> ScriptObs {
     run_script_real_with(script, tree, dir, None)
@@ -2128,80 +2632,48 @@ fn run_script_real(script: &str, tree: &InitTree, dir: &str) -> ScriptObs {
 
 /// `shell` = None: this binary (`--real-shell`); Some(path): that binary (`-c`).
 fn run_script_real_with(script: &str, tree: &InitTree, dir: &str, shell: Option<&str>) -> ScriptObs {
-    use std::os::unix::process::{CommandExt, ExitStatusExt};
-    use std::process::Stdio;
+    use std::os::unix::process::ExitStatusExt;
     let root = format!("{dir}/root");
-    let _ = std::fs::remove_dir_all(dir);
-    populate_real(&root, tree);
-    let mut cmd = match shell {
-        None => {
-            let mut c = std::process::Command::new(std::env::current_exe().unwrap());
-            c.arg("--real-shell");
-            c
-        }
-        Some(path) => {
-            let mut c = std::process::Command::new(path);
-            c.arg("-c");
-            c
-        }
-    };
-    cmd.arg(script)
-        .current_dir(&root)
-        .env_clear()
-        .process_group(0)
-        .stderr(Stdio::piped());
-    cmd.stdin(Stdio::null()).stdout(Stdio::piped());
-    let mut child = cmd.spawn().expect("spawn the real shell");
-    let mut out = child.stdout.take().unwrap();
-    let mut err = child.stderr.take().unwrap();
-    let th_out = std::thread::spawn(move || {
-        let mut b = vec![];
-        let _ = out.read_to_end(&mut b);
-        b
-    });
-    let th_err = std::thread::spawn(move || {
-        let mut b = vec![];
-        let _ = err.read_to_end(&mut b);
-        b
-    });
-    let t0 = Instant::now();
-    let status = loop {
-        match child.try_wait() {
-            Ok(Some(st)) => {
-                break match (st.code(), st.signal()) {
-                    (Some(c), _) => c,
-                    (None, Some(s)) => -(100 + s),
-                    _ => -1,
-                };
+    // a time limit only guards against a hang; it is generous and a run that
+    // exceeds it is repeated once with a much longer one before giving up
+    for (attempt, limit) in [(1, 60u64), (2, 300u64)] {
+        let _ = std::fs::remove_dir_all(dir);
+        populate_real(&root, tree);
+        let mut cmd = match shell {
+            None => {
+                let mut c = std::process::Command::new(std::env::current_exe().unwrap());
+                c.arg("--real-shell");
+                c
             }
-            Ok(None) => {
-                if t0.elapsed() > Duration::from_secs(10) {
-                    // the whole process group (the shell and its children)
-                    let _ = std::process::Command::new("/bin/kill")
-                        .arg("-9")
-                        .arg(format!("-{}", child.id()))
-                        .status();
-                    let _ = child.kill();
-                    let _ = child.wait();
-                    break -1;
-                }
-                std::thread::sleep(Duration::from_millis(1));
+            Some(path) => {
+                let mut c = std::process::Command::new(path);
+                c.arg("-c");
+                c
             }
-            Err(_) => break -1,
-        }
-    };
-    let join = |th: std::thread::JoinHandle<Vec<u8>>| {
-        let t1 = Instant::now();
-        while !th.is_finished() && t1.elapsed() < Duration::from_secs(2) {
-            std::thread::sleep(Duration::from_millis(1));
-        }
-        if th.is_finished() { th.join().unwrap_or_default() } else { vec![] }
-    };
-    let stdout = join(th_out);
-    let stderr = String::from_utf8_lossy(&join(th_err)).into_owned();
-    let tree = canon_tree(snapshot_real(&root), &root);
-    let _ = std::fs::remove_dir_all(dir);
-    ScriptObs { stdout: canon_root(&stdout, &root), status, tree, stderr }
+        };
+        cmd.arg(script).current_dir(&root).env_clear();
+        let c = capture(cmd, Duration::from_secs(limit));
+        let Some(st) = c.status else {
+            if attempt == 2 {
+                harness_error(&format!("the shell on the real OS did not finish within {limit} s: {script:?}"));
+            }
+            continue;
+        };
+        let status = match (st.code(), st.signal()) {
+            (Some(c), _) => c,
+            (None, Some(s)) => -(100 + s),
+            _ => -1,
+        };
+        let tree = canon_tree(snapshot_real(&root), &root);
+        let _ = std::fs::remove_dir_all(dir);
+        return ScriptObs {
+            stdout: canon_root(&c.stdout, &root),
+            status,
+            tree,
+            stderr: String::from_utf8_lossy(&c.stderr).into_owned(),
+        };
+    }
+    unreachable!()
 }
 
 // ---------------------------------------------------------------------------
@@ -2295,7 +2767,7 @@ impl SGen<'_> {
 
     fn stmt(&mut self) -> String {
         loop {
-            let k = self.r.below(61);
+            let k = self.r.below(64);
             let (kind, s): (&'static str, String) = match k {
                 0 => ("redir-out", format!("echo {} > {}", self.word(), self.newfile())),
                 1 => ("redir-out", format!("echo {} > {}; echo {} >> {}", self.word(), "n1", self.word(), "n1")),
@@ -2468,6 +2940,44 @@ impl SGen<'_> {
                     let f = self.newfile();
                     ("signal-default-from-child", format!("(kill -s TERM $$); echo x > {f}; echo unreachable"))
                 }
+                61 | 62 => {
+                    // RLIMIT_NOFILE in a subshell: EMFILE at pipes, redirections,
+                    // command substitution, descriptor saving
+                    let n = 3 + self.r.below(6);
+                    let f = self.file();
+                    let body = match self.r.below(8) {
+                        0 => "echo x | cat; echo $?".to_string(),
+                        1 => format!("exec 3< {f} 4< {f}; echo $?; cat <&3"),
+                        2 => format!("v=$(echo hi); echo \"$? $v\"; cat < {f} | cat | cat; echo $?"),
+                        3 => "for i in 1 2 3; do echo $i; done | { read a; echo \"$a\"; cat; } | cat; echo $?".to_string(),
+                        4 => format!("cat < {f}; echo $?; exec 5< {f}; echo $?; ulimit -n"),
+                        5 => "echo a >&2; echo $?; { echo b; } 2>&1; echo $?".to_string(),
+                        6 => "(echo deep | cat); echo $?; v=$(echo a | cat); echo \"$? $v\"".to_string(),
+                        _ => {
+                            // an output redirection: with no descriptor left the file must
+                            // not be created
+                            if n == 3 {
+                                if self.x.emfile_open_side_effects {
+                                    continue;
+                                }
+                                self.tag("emfile-open-side-effects");
+                            }
+                            "echo a > lim.txt; echo $?; cat < lim.txt; echo $?".to_string()
+                        }
+                    };
+                    ("ulimit-emfile", format!("(ulimit -n {n}; {body}); echo $?"))
+                }
+                63 => ("kill-group", (*self.r.pick(&[
+                    // the shell leads its process group on both sides; only signals
+                    // whose numbers POSIX fixes
+                    "trap '' TERM; (trap - TERM; kill -s TERM -- -$$; echo unreachable); echo $?",
+                    "trap 'echo got' TERM; (kill -s TERM 0; echo sub-unreachable); echo sub=$?",
+                    "trap '' HUP; kill -s HUP 0; echo alive; (kill -s HUP -- -$$; echo child-ignores-too); echo $?",
+                    "trap 'echo I' INT; kill -s INT -- -$$; echo after",
+                    "trap '' TERM; (trap - TERM; kill 0; echo unreachable) | cat; echo $?",
+                    "trap '' INT; (trap - INT; kill -s INT 0; echo no) & wait $!; echo $?",
+                    "trap '' HUP; (trap - HUP; (kill -s HUP 0; echo inner); echo outer $?); echo $?",
+                ])).to_string()),
                 60 => {
                     // a descriptor the script never opened, after a pathname expansion
                     if self.x.opendir_fd_leak || self.globs > 0 {
@@ -2588,6 +3098,10 @@ fn gen_builtin_script(seed: u64, idx: usize) -> ScriptCase {
             ("b:heredoc", "read -r a b <<EOF\none two three\nEOF\ntypeset -p a b"),
             ("b:kill-l", "kill -l 15; kill -l TERM; kill -0 $$; x=$?; typeset -p x"),
             ("b:function", "fn() { pwd; return 5; }; fn > n5; x=$?; typeset -p x"),
+            ("b:kill-group", "trap '' TERM; (trap - TERM; kill -s TERM -- -$$; x=no; typeset -p x); x=$?; typeset -p x"),
+            ("b:kill-group0", "trap 'x=got; typeset -p x' HUP; (kill -s HUP 0; x=no; typeset -p x); x=$?; typeset -p x"),
+            ("b:ulimit", "(ulimit -n 4; pwd | { read -r v; typeset -p v; }; x=$?; typeset -p x); x=$?; typeset -p x"),
+            ("b:ulimit2", "(ulimit -n 5; exec 3< f 4< g; x=$?; typeset -p x; read -r a <&3; typeset -p a; ulimit -n)"),
             ("b:glob", "set -- *; x=\"$1,$2,$#\"; typeset -p x; set -- d/*; x=\"$#,$1\"; typeset -p x"),
         ]);
         kinds.push(k);
@@ -2799,6 +3313,83 @@ fn corpus_sys() -> Vec<SysCase> {
             Op::Caught,
             Op::Sigaction(0, Disp::Default),
         ]),
+        // RLIMIT_NOFILE: a pipe that gets only one descriptor keeps none; the
+        // next open gets the freed number; dup/dup2 at the limit; the child
+        // inherits the limit; an open that fails with EMFILE creates nothing
+        mk(vec![
+            Op::Setrlimit(4),
+            Op::Pipe,
+            Op::Open("f".into(), Acc::Rd, fl, 0),
+            Op::Pipe,
+            Op::Open("g".into(), Acc::Wr, fl, 0),
+            Op::Stat("n1".into()),
+            Op::Dup(3, 0, false),
+            Op::Dup2(3, 4),
+            Op::Dup2(3, 2),
+            Op::Fork,
+            Op::Close(2),
+            Op::Pipe,
+            Op::Dup(0, 0, false),
+            Op::Setrlimit(6),
+            Op::Pipe,
+            Op::Exit,
+            Op::Close(3),
+            Op::Setrlimit(5),
+            Op::Pipe,
+            Op::Fstat(4),
+        ]),
+        // signals for the caller's own process group: the parent ignores or
+        // catches them, the child (default action) dies; kill(-getpid()) by a
+        // process that leads no group; a child in a group of its own; a stopped
+        // child is continued
+        mk(vec![
+            Op::Sigaction(2, Disp::Ignore),
+            Op::Sigaction(4, Disp::Catch),
+            Op::Sigaction(5, Disp::Ignore),
+            Op::Kill(Target::Group0, 2),
+            Op::Kill(Target::NegPid, 4),
+            Op::Caught,
+            Op::Fork,
+            Op::Kill(Target::NegPid, 2),
+            Op::Sigaction(2, Disp::Default),
+            Op::Kill(Target::NegPgid, 2),
+            Op::Getcwd,
+            Op::Exit,
+            Op::Fork,
+            Op::Sigaction(4, Disp::Default),
+            Op::Kill(Target::Group0, 4),
+            Op::Exit,
+            Op::Caught,
+            Op::Fork,
+            Op::Setpgid0,
+            Op::Fork,
+            Op::Kill(Target::Parent, 4),
+            Op::Kill(Target::NegPgid, 2),
+            Op::Exit,
+            Op::Caught,
+            Op::Kill(Target::NegPid, 4),
+            Op::Caught,
+            Op::Exit,
+            Op::Fork,
+            Op::Sigaction(5, Disp::Default),
+            Op::Kill(Target::Own, 5),
+            Op::Kill(Target::Group0, 5),
+            Op::Getcwd,
+            Op::Exit,
+            Op::GetSigaction(2),
+        ]),
+        // ---- new findings (generated once they are registered) ----
+        mk_tagged(
+            "emfile-open-side-effects",
+            vec![
+                Op::Setrlimit(3),
+                Op::Open("n1".into(), Acc::Wr, Flags { creat: true, ..fl }, 0o666),
+                Op::Open("f".into(), Acc::Wr, Flags { trunc: true, ..fl }, 0),
+                Op::Stat("n1".into()),
+                Op::Stat("f".into()),
+            ],
+        ),
+        mk_tagged("dup-min-above-limit", vec![Op::Setrlimit(5), Op::Dup(0, 5, false), Op::Dup(0, 10, true)]),
         // ---- one minimal case per known deviation of the simulator (F22-F30) ----
         mk_tagged("opendir-fd-leak", vec![Op::Readdir("d".into()), Op::Open("f".into(), Acc::Rd, fl, 0)]),
         mk_tagged("creat-dotdot", vec![Op::Open("d/../n1".into(), Acc::Wr, Flags { creat: true, ..fl }, 0o666)]),
@@ -2851,7 +3442,17 @@ fn has_dots(p: &str) -> bool {
 
 fn sys_case(seed: u64, idx: usize, thorough: bool) -> SysCase {
     let c = corpus_sys();
-    if idx < c.len() { c[idx].clone() } else { gen_sys_case(seed, idx, thorough) }
+    if idx < c.len() {
+        let mut case = c[idx].clone();
+        if case.tags.iter().any(|tag| unregistered(tag)) {
+            // (a finding that is not registered yet: see `unregistered`)
+            case.ops.clear();
+            case.tags.clear();
+        }
+        case
+    } else {
+        gen_sys_case(seed, idx, thorough)
+    }
 }
 
 /// `c19 --real-sys-worker SEED TIER FROM TO RUNDIR`
@@ -2874,43 +3475,7 @@ fn real_sys_worker(a: &[String]) -> ! {
     std::process::exit(0);
 }
 
-/// Output of a child process with a deadline.
-fn run_with_timeout(mut cmd: std::process::Command, timeout: Duration) -> (Vec<u8>, Option<std::process::ExitStatus>) {
-    use std::process::Stdio;
-    cmd.stdin(Stdio::null()).stdout(Stdio::piped());
-    let mut child = cmd.spawn().expect("spawn worker");
-    let mut out = child.stdout.take().unwrap();
-    let th = std::thread::spawn(move || {
-        let mut buf = vec![];
-        let _ = out.read_to_end(&mut buf);
-        buf
-    });
-    let t0 = Instant::now();
-    let status = loop {
-        match child.try_wait() {
-            Ok(Some(st)) => break Some(st),
-            Ok(None) => {
-                if t0.elapsed() > timeout {
-                    let _ = child.kill();
-                    let _ = child.wait();
-                    break None;
-                }
-                std::thread::sleep(Duration::from_millis(2));
-            }
-            Err(_) => break None,
-        }
-    };
-    // grandchildren (forked by the worker) may still hold the pipe: do not
-    // wait for EOF for ever
-    let t1 = Instant::now();
-    while !th.is_finished() && t1.elapsed() < Duration::from_secs(2) {
-        std::thread::sleep(Duration::from_millis(2));
-    }
-    let buf = if th.is_finished() { th.join().unwrap_or_default() } else { vec![] };
-    (buf, status)
-}
-
-fn parse_worker_output(text: &str, n_ops: &dyn Fn(usize) -> usize) -> BTreeMap<usize, SysObs> {
+fn parse_worker_output(text: &str, ops_of: &dyn Fn(usize) -> Vec<Op>) -> BTreeMap<usize, SysObs> {
     let mut out: BTreeMap<usize, SysObs> = BTreeMap::new();
     let mut cur: Option<usize> = None;
     for line in text.lines() {
@@ -2941,11 +3506,7 @@ fn parse_worker_output(text: &str, n_ops: &dyn Fn(usize) -> usize) -> BTreeMap<u
         }
     }
     for (idx, o) in out.iter_mut() {
-        let n = n_ops(*idx);
-        o.res.truncate(n);
-        while o.res.len() < n {
-            o.res.push(Res::Hang);
-        }
+        o.res = align(&ops_of(*idx), &o.res);
     }
     out
 }
@@ -2989,13 +3550,41 @@ fn real_sys_all(args: &Args, n: usize, run: &str) -> BTreeMap<usize, SysObs> {
                     .arg(&run)
                     .env_clear();
                 // the worker regenerates the sequences: same generator configuration
-                for k in ["YV_C19_SCRATCH"] {
+                for k in ["YV_C19_SCRATCH", "YV_C19_PROPS"] {
                     if let Ok(v) = std::env::var(k) {
                         cmd.env(k, v);
                     }
                 }
-                let (out, _) = run_with_timeout(cmd, Duration::from_secs(60));
-                results.lock().unwrap().push_str(&String::from_utf8_lossy(&out));
+                // complete = every case of the chunk reported its tree and files
+                let complete = |text: &str| {
+                    text.lines().any(|l| l == "E")
+                        && text.lines().filter(|l| l.starts_with("S ")).count() == b - a
+                        && !text.lines().any(|l| l == "R hang")
+                };
+                let mut text = String::new();
+                for (attempt, limit) in [(1, 300u64), (2, 1200u64)] {
+                    let mut c2 = std::process::Command::new(cmd.get_program());
+                    c2.args(cmd.get_args()).env_clear();
+                    for (k, v) in cmd.get_envs() {
+                        if let Some(v) = v {
+                            c2.env(k, v);
+                        }
+                    }
+                    let c = capture(c2, Duration::from_secs(limit));
+                    text = String::from_utf8_lossy(&c.stdout).into_owned();
+                    if complete(&text) {
+                        break;
+                    }
+                    if attempt == 2 {
+                        harness_error(&format!(
+                            "the real-system worker for cases {a}..{b} did not deliver complete results \
+                             (exit {:?}); its standard error: {}",
+                            c.status,
+                            String::from_utf8_lossy(&c.stderr)
+                        ));
+                    }
+                }
+                results.lock().unwrap().push_str(&text);
             }
         }));
     }
@@ -3005,7 +3594,7 @@ fn real_sys_all(args: &Args, n: usize, run: &str) -> BTreeMap<usize, SysObs> {
     let text = results.lock().unwrap().clone();
     let thorough = args.thorough();
     let seed = args.seed;
-    parse_worker_output(&text, &|idx| sys_case(seed, idx, thorough).ops.len())
+    parse_worker_output(&text, &|idx| sys_case(seed, idx, thorough).ops)
 }
 
 /// Real-side observations of all scripts (a pool of threads, each running one
@@ -3131,10 +3720,9 @@ fn main() {
         }
         let root = format!("{run}/c{idx}/root");
         let v = run_sys_virtual(&case, &root);
-        let r = real.get(&idx).cloned().unwrap_or_else(|| SysObs {
-            res: vec![Res::Hang; case.ops.len()],
-            ..Default::default()
-        });
+        let Some(r) = real.get(&idx).cloned() else {
+            harness_error(&format!("no result of the real system for sequence {idx}"));
+        };
         emit_sys(&mut w, &case, &v, &r);
     }
 
